@@ -163,9 +163,9 @@ end Anonymongo
 namespace Anonymongo
 namespace Ctx
 
-theorem zone_refine (c : Ctx) (hasInsert : Bool) (k : Str) (v : J) :
-    c.run (zoneState hasInsert k) v = c.cmdVal hasInsert k v := by
-  unfold zoneState cmdVal
+theorem opZone_refine (c : Ctx) (hasInsert : Bool) (k : Str) (v : J) :
+    c.run (opZone hasInsert k) v = c.cmdVal hasInsert k v := by
+  unfold opZone cmdVal
   by_cases h1 : qKeysObj.contains k = true
   · rw [if_pos h1, if_pos h1]; cases v <;> simp [run, node, Q_refine]
   · rw [if_neg h1, if_neg h1]
@@ -179,9 +179,36 @@ theorem zone_refine (c : Ctx) (hasInsert : Bool) (k : Str) (v : J) :
         · rw [if_pos h4, if_pos h4]
           cases hasInsert <;> cases v <;> simp [run, node, A_refine]
         · rw [if_neg h4, if_neg h4]
-          by_cases h5 : k = sPipeline
-          · rw [if_pos h5, if_pos h5]; cases v <;> simp [run, node, FacetStages_refine]
-          · rw [if_neg h5, if_neg h5]; cases v <;> simp [run, node]
+          by_cases h4' : k = sDocument
+          · rw [if_pos h4', if_pos h4']
+            cases hasInsert <;> cases v <;> simp [run, node, Q_refine]
+          · rw [if_neg h4', if_neg h4']
+            by_cases h5 : k = sPipeline
+            · rw [if_pos h5, if_pos h5]; cases v <;> simp [run, node, FacetStages_refine]
+            · rw [if_neg h5, if_neg h5]; cases v <;> simp [run, node]
+
+theorem runKVs_opZone (c : Ctx) (hi : Bool) : ∀ (kvs : List (Str × J)),
+    c.runKVs (fun k _ => (k, opZone hi k)) kvs = kvs.map fun p => (p.1, c.cmdVal hi p.1 p.2)
+  | [] => rfl
+  | (k, v) :: rest => by simp [runKVs, opZone_refine, runKVs_opZone c hi rest]
+
+/-- an operation document one level down -/
+theorem opDoc_refine (c : Ctx) (v : J) : c.run .ZOp v = c.opDoc v := by
+  cases v <;> simp [run, node, opDoc, redactOperation, runKVs_opZone]
+
+theorem runList_ZOp (c : Ctx) : ∀ xs : List J, c.runList .ZOp xs = xs.map c.opDoc
+  | [] => rfl
+  | x :: xs => by simp [runList, opDoc_refine, runList_ZOp c xs]
+
+theorem zone_refine (c : Ctx) (hasInsert hasBulk : Bool) (k : Str) (v : J) :
+    c.run (zoneState hasInsert hasBulk k) v = c.cmdEntry hasInsert hasBulk k v := by
+  unfold zoneState cmdEntry
+  by_cases h1 : k = sExplain
+  · rw [if_pos h1, if_pos h1]; exact opDoc_refine c v
+  · rw [if_neg h1, if_neg h1]
+    by_cases h2 : (k = sOps && hasBulk) = true
+    · rw [if_pos h2, if_pos h2]; cases v <;> simp [run, node, runList_ZOp]
+    · rw [if_neg h2, if_neg h2]; exact opZone_refine c hasInsert k v
 
 theorem redactCommand_refine (c : Ctx) (cmd : List (Str × J)) : c.redactCommandA cmd = c.redactCommand cmd := by
   simp [redactCommandA, redactCommand, zone_refine]
